@@ -36,6 +36,8 @@ def compatible(vcont, emb):
 
 
 def vcont_arg(vcont, n):
+    if vcont == "pachunkdict":
+        return ("pachunkdict", [n // 2, n - n // 2])
     return ("pachunk", [n // 2, n - n // 2]) if vcont == "pachunk" else vcont
 
 
@@ -47,6 +49,8 @@ def kdraw(rng, keys):
         kcont = rng.pick(["np", "series"])
     if kenc == "str" and (kcont == "pl" or keys[0] == NULL):
         kenc = "f64"
+    if not nulls and kenc in ("str", "i64") and rng.random() < 0.15:
+        kcont = "pachunkdict"       # dictionary-typed arrow chunks with differing dictionaries
     return kenc, kcont
 
 
